@@ -140,6 +140,16 @@ func (r *Result) undecided(key, pos, detail string) {
 	r.add(Obligation{Key: r.Rule + ":" + key, Pos: pos, Verdict: Undecided, Detail: detail})
 }
 
+// hasKey: an obligation with this key (without the rule prefix) was already recorded.
+func (r *Result) hasKey(key string) bool {
+	for _, o := range r.Obls {
+		if o.Key == r.Rule+":"+key {
+			return true
+		}
+	}
+	return false
+}
+
 func (r *Result) note(format string, args ...any) {
 	r.Notes = append(r.Notes, fmt.Sprintf(format, args...))
 }
@@ -269,6 +279,45 @@ func (c *Ctx) aliasSet(alias string) map[string]bool {
 			for _, e := range c.Graph().In[s.fn] {
 				if cc := callCommon(e.Site); cc != nil && staticFn(cc) == s.fn && e.Caller.Pkg == s.fn.Pkg && e.Caller.Parent() == nil {
 					add(e.Caller)
+				}
+			}
+		}
+	}
+	if alias == "@rule-id-resolver" {
+		// a resolver written by hand: a function with a text parameter and an error result that fills two or more
+		// fields of one package-level struct variable (id, file name, chain offset)
+		for _, fn := range c.P.RepoFns {
+			if !fnHasErrResult(fn) || fn.Parent() != nil {
+				continue
+			}
+			hasText := false
+			for _, p := range fn.Params {
+				if isStringType(p.Type()) {
+					hasText = true
+				}
+			}
+			if !hasText {
+				continue
+			}
+			fields := map[*ssa.Global]map[int]bool{}
+			allInstrs(fn, func(in ssa.Instruction) {
+				if st, ok := in.(*ssa.Store); ok {
+					if fa, ok := st.Addr.(*ssa.FieldAddr); ok {
+						if g, ok := fa.X.(*ssa.Global); ok {
+							if fields[g] == nil {
+								fields[g] = map[int]bool{}
+							}
+							fields[g][fa.Field] = true
+						}
+					}
+				}
+			})
+			for _, fs := range fields {
+				if len(fs) >= 3 {
+					if o, ok := fn.Object().(*types.Func); ok {
+						m[qualName(o)] = true
+					}
+					m[load.FnName(fn)] = true
 				}
 			}
 		}
